@@ -171,6 +171,14 @@ class AsyncBatch(bc.Batch):
         return True
 
 
+def prune_mine(keep=16):
+    """remove the oldest batch directories of THIS check (prefix `a-`)"""
+    if not os.path.isdir(bc.BIND): return
+    ds = sorted((os.path.getmtime(os.path.join(bc.BIND, d)), d) for d in os.listdir(bc.BIND) if d.startswith("a-"))
+    for _, d in ds[:-keep]:
+        shutil.rmtree(os.path.join(bc.BIND, d), ignore_errors=True)
+
+
 def build_batch(c, name, items, emitter, max_retries=3, target=ASYNC_TARGET):
     """as bc.build_batches, with AsyncBatch; a case whose sync or async item does not compile is dropped as a whole"""
     dropped, live, index_map = {}, list(items), list(range(len(items)))
@@ -621,6 +629,46 @@ def shrink_values(run_fn, m, vals, ret, cls):
     return vals, ret
 
 
+class _Quiet:
+    """stand-in for the Check object while probing shrunk worlds (their build problems are not obligations)"""
+    def __init__(self): self.broken, self.notes = [], []
+
+
+def verify_minimal(c, emitter, host, ahost, v):
+    """rebuild the one-function world of a run-time witness (sync twin + everything async) and replay its scenario:
+    True iff the same class fails again"""
+    w = v["witness"]
+    if not w.get("minimal_wit") or not w.get("name") or "scenario" not in w:
+        return False
+    sched = w.get("schedule")
+    if w["dir"] == "export" and (not isinstance(sched, dict) or any(st != "y" for st in sched.get("plan", []))):
+        return False          # nested import calls need the other functions of the world
+    cfg = w["config"]
+    mw = w["minimal_wit"]
+    items = [(cfg, mw.replace("t:wX", "t:w0")), (cfg + ",async=all", mw.replace("t:wX", "t:w1"))]
+    name = "a-min-" + hashlib.sha1(bc.worlds_spec(items).encode()).hexdigest()[:10]
+    batch, dropped = build_batch(_Quiet(), name, items, emitter)
+    if batch is None or dropped or len(batch.index_map) != 2:
+        return False
+    ms = next((m for m in batch.manifest if m.get("item") == 0 and m.get("dir") == w["dir"] and m.get("name") == w["name"]), None)
+    ma = next((m for m in batch.manifest if m.get("item") == 1 and m.get("dir") == w["dir"] and m.get("name") == w["name"]), None)
+    if ma is None or not ma.get("async"):
+        return False
+    runner = ah.AsyncRunner(batch.binary, host, ahost)
+    try:
+        so = None
+        if ms is not None:
+            try:
+                so = runner.export_call(ms, w["args"], w["ret"]) if ms["dir"] == "export" else runner.import_call(ms, w["args"], w["ret"])
+            except (bc.Crash, ValueError):
+                runner.restart_native()
+        spec = sched if w["dir"] == "import" else (list(sched.get("plan", [])), sched.get("cancel_at"))
+        o = run_scenario(c, runner, w["dir"], ma, w["args"], w["ret"], spec, None)
+        return v["class"] in {f[0] for f in scenario_findings(w["dir"], ma, o, so, [])}
+    finally:
+        runner.close()
+
+
 # ---------------------------------------------------------------------------------- the check
 
 def rust_ident(name):
@@ -721,9 +769,12 @@ def run(c):
     if c.replay and "witness" in c.replay and "wit" in c.replay["witness"]:
         w = c.replay["witness"]
         cases.append((w.get("variant", "both"), re.sub(r"t:w\d+", "t:wX", w["wit"]), "replay", w.get("config", base)))
+    replaying = bool(cases)
+    if replaying:
+        corpus, known = [], []       # a replay run runs the recorded witness only
     for variant, wit in corpus:
         cases.append((variant, wit, "corpus", base))
-    n_seeded = int(os.environ.get("VERIF_C08_SEEDED", 13 if quick else 96))
+    n_seeded = 0 if replaying else int(os.environ.get("VERIF_C08_SEEDED", 13 if quick else 96))
     for _ in range(n_seeded):
         cfg = bc.config_str("owning", c.rng.randint(0, 1), c.rng.randint(0, 1), c.rng.choice(["btree", "hash"]), c.rng.randint(0, 1))
         cases.append((c.rng.choice(VARIANTS), gen_case(c.rng, features, stats), "seeded", cfg))
@@ -763,7 +814,7 @@ def run(c):
         mt = meta[k]
         return {"variant": "mixed:" + "+".join(d.replace(f"t:w{2 * k + 1}", "t:wX").replace("#", "%") for d in mt["directives"]),
                 "config": mt["config"], "wit": cases[k][1], "function": m["key"] if m else None,
-                "func": m["func"] if m else None, **detail}
+                "func": m["func"] if m else None, "dir": m["dir"] if m else None, "name": m["name"] if m else None, **detail}
 
     def violation(cls, what, k, m, detail):
         cov["findings"][cls] = cov["findings"].get(cls, 0) + 1
@@ -802,7 +853,7 @@ def run(c):
         built = list(ex.map(build_with_slot, chunks))
     cov["timing"]["build_all_s"] = round(time.time() - tb, 1)
     cov["timing"]["batch_build_s"] = [x[4] for x in built]
-    bc.prune_batches()
+    prune_mine(16 if quick else 30)
     ncompiled, ndropped = 0, 0
 
     # ------------------------------------------------------------ run
@@ -979,7 +1030,8 @@ def run(c):
                         nres = 2 if "retptr=1" in rm else 1
                         trm = hproc.rq(f"sig|GuestExport|{P}|(fn free ({ma['result']}) _)") or ""
                         rb = "none"
-                        rb = ("1 flat" if nres == 1 else ("2..16 flat" if "indirect=0" in trm else ">16 flat (task.return through memory)"))
+                        rb = ("1 flat" if nres == 1 else ("2..16 flat" if "indirect=0" in trm else
+                                                          (">16 flat (task.return through memory)" if ma["dir"] == "export" else ">16 flat")))
                     else:
                         rb = "none"
                     cov["result_flat"][ma["dir"] + ":" + rb] = cov["result_flat"].get(ma["dir"] + ":" + rb, 0) + 1
@@ -991,6 +1043,29 @@ def run(c):
             runner.close()
             cov["timing"].setdefault("batch_run_s", []).append(round(time.time() - trun, 1))
     hproc.close()
+    # ------------------------------------------------------------ shrink the world of new run-time witnesses
+    known_classes = {kf["class"] for kf in c.known_findings()}
+    seen, tried = set(), 0
+    for v in c.violations:
+        if v["class"] in known_classes or v["class"] in seen:
+            continue
+        seen.add(v["class"])
+        if tried >= 2 or not v["witness"].get("minimal_wit") or "scenario" not in v["witness"]:
+            continue
+        tried += 1
+        try:
+            okmin = verify_minimal(c, emitter, host, ahost, v)
+        except Exception as e:
+            okmin = False
+            c.notes.append(f"world shrinking of {v['class']} raised {type(e).__name__}: {e}")
+        if okmin:
+            w = v["witness"]
+            w["original_wit"], w["original_variant"] = w["wit"], w["variant"]
+            w["wit"], w["variant"] = w["minimal_wit"], "both"
+            w["world_shrunk"] = "the one-function world reproduces the failure (rebuilt and replayed)"
+        else:
+            v["witness"]["world_shrunk"] = "the one-function world was not confirmed; the witness keeps the original world"
+    cov["world_shrinks_tried"] = tried
     c.compare("abi-layout(generated text vs model, both pointer widths)", lay_req, lay_impl, lay_model)
     c.compare("wasm-signature(async variants)", sig_req, sig_impl, sig_model)
     c.compare("ledger-summary(sync vs async binding)", led_req, led_sync, led_async, nontrivial=lambda r, o: False)
